@@ -1,9 +1,15 @@
 mod common;
+mod exp;
 mod p_adaptive;
+mod p_chunk;
+mod p_codec;
 mod p_pii;
+mod p_query;
 mod p_simd;
+mod p_snippet;
 mod p_sketch;
 mod p_text;
+mod s_wal;
 
 use common::Tier;
 
@@ -12,6 +18,10 @@ fn main() {
     if args.len() >= 3 && args[1] == "--worker" {
         common::quiet_panics();
         worker(&args[2]);
+        return;
+    }
+    if args.len() >= 2 && args[1] == "exp" {
+        exp::run(&args[2..]);
         return;
     }
     if args.len() < 3 {
@@ -29,7 +39,13 @@ fn main() {
         .and_then(|i| args.get(i + 1).cloned());
     common::quiet_panics();
     let code = match args[1].as_str() {
+        "C05" => s_wal::run(tier, replay),
+        "C30" => p_codec::run_c30(tier, replay),
+        "C31" => p_codec::run_c31(tier, replay),
+        "C32" => p_query::run(tier, replay),
         "C33" => p_text::run(tier, replay),
+        "C34" => p_chunk::run(tier, replay),
+        "C35" => p_snippet::run(tier, replay),
         "C36" => p_pii::run(tier, replay),
         "C37" => p_adaptive::run(tier, replay),
         "C38" => p_simd::run(tier, replay),
@@ -42,6 +58,7 @@ fn main() {
 
 fn worker(kind: &str) {
     match kind {
+        "c32" => p_query::worker(),
         other => common::die(&format!("unknown worker kind {other}")),
     }
 }
